@@ -256,7 +256,7 @@ var battery = []string{
 	"(def zq3 [1 2 3])",
 	"(aget zq3 9)",
 	"(m0 4)", "(m1 4)",
-	"(t0)", "(t1)", "(t2)", "(t0)", "sv0", "sv1",
+	"(t0)", "(t1)", "(t2)", "(t0)", "sv0", "sv1", "(pk0.Get)", "pk0.Open",
 	"(- 10 3)",
 }
 
